@@ -129,7 +129,7 @@ def make_tree(root):
 
 
 GOOD = ["writestr", "writef", "write", "writeall", "writedir"]  # writedir: write() of a directory (one entry without data)
-FAULTY = ["write:missing", "write:answer", "writeall:answer", "writestr:badname", "writef:badname", "writef:answer", "write:badtype", "writef:consuming:answer"]
+FAULTY = ["write:missing", "write:answer", "writeall:answer", "writestr:badname", "writef:badname", "writef:answer", "write:badtype", "writef:consuming:answer", "writef:pastend"]
 BADNAMES = ["../evil", "/abs/evil", "a/../../evil"]
 ERRNOS = [errno.EACCES, errno.EIO, errno.ENOENT]
 
@@ -219,6 +219,11 @@ def _body(ch: explore.Chooser, wd: str):
                 z.writef(io.BytesIO(b"never"), badname)
             elif fkind == "writef:answer":
                 z.writef(FaultyBIO(b"stream-data-" * 30), "faulty/stream.bin")
+            elif fkind == "writef:pastend":
+                # a file object positioned beyond its end: nothing can be read from it, its remaining size is negative
+                src = FaultyBIO(b"stream-data-" * 30)
+                src.b.seek(5000)
+                z.writef(src, "faulty/pastend.bin")
             elif fkind == "writef:consuming:answer":
                 z.writef(FaultyBIO(b"stream-data-" * 30, consume=7), "faulty/stream.bin")
         except Exception as ex:
@@ -272,7 +277,7 @@ def judge(res):
     out = []
     obs, model = res["obs"], res["model"]
     fk = res["fkind"]
-    must_raise = fk in ("write:missing", "write:badtype", "writestr:badname", "writef:badname")
+    must_raise = fk in ("write:missing", "write:badtype", "writestr:badname", "writef:badname", "writef:pastend")
     if must_raise and obs["raised"] is None:
         out.append(("fault-not-reported", f"{fk} did not raise"))
     if fk.endswith(":badname") and obs["raised"] not in (None, "ValueError"):
